@@ -8,6 +8,7 @@
 List field
 """
 import inspect
+import operator
 from typing import Any, Iterable, List, Optional, Type, Union
 
 from ..core import (
@@ -64,7 +65,12 @@ class ListProxy(list, ContainerValueMixin):
 
     def insert(self, index: int, item: Any) -> None:
         size = len(self)
-        position = min(max(index + size if index < 0 else index, 0), size)
+        try:
+            position: Optional[int] = operator.index(index)
+        except TypeError:
+            position = None  # list.insert() raises for it below
+        if position is not None:
+            position = min(max(position + size if position < 0 else position, 0), size)
         super().insert(index, self._validate(item, position))
 
     def copy(self) -> "ListProxy":
